@@ -240,3 +240,43 @@ Theorem c11_history_step_is_heal :
       (let '(r, st', ls) := heal N O C ctor gen mr (of_dyadic N m e) (cs_stats s) in (mkCS st' (cs_reg s), OHeal r ls)).
 Proof. exact hstep_is_heal_proof. Qed.
 Print Assumptions c11_history_step_is_heal.
+
+(* THE CLOCK.  fold and fold_enhanced read time.time() twice per strategy tried and
+   store (t1 - t0) * 1000 in the FoldingAttempt records.  [clk] is ANY clock: the k-th
+   reading may be anything (a clock that stands still so that two readings are equal,
+   one that steps backwards, one with coarse ticks; in the binary64 instance also
+   infinities and NaN).  Forgetting the timing of the timed model gives exactly the
+   untimed functions, so validity, structure, error, strategy, confidence, coercions,
+   attempts, counters and the sequence of oracle calls do not depend on the clock and
+   every theorem above holds under every clock; in particular clean schema-valid JSON
+   is accepted by STRICT with full confidence whatever the clock reads
+   (c11_strict_first_verbatim). *)
+Theorem c11_clock_irrelevant :
+  forall (N : num) (O : oracles) (C : config) (clk : nat -> T N) ctor arg raw st k,
+    fst (fold_t N O C clk ctor arg raw st k) = fold O C ctor arg raw st /\
+    fst (fold_enhanced_t N O C clk ctor arg raw st k) = fold_enhanced N O C ctor arg raw st.
+Proof. intros; split; [exact (fold_t_untimed N O C clk ctor arg raw st k) | exact (fold_enhanced_t_untimed N O C clk ctor arg raw st k)]. Qed.
+Print Assumptions c11_clock_irrelevant.
+
+(* what the readings ARE used for: a returned enhanced result was computed with exactly two
+   readings per recorded attempt, and the i-th attempt's duration is
+   (reading 2i+1 - reading 2i) * 1000, nothing else *)
+Theorem c11_clock_readings :
+  forall (N : num) (O : oracles) (C : config) (clk : nat -> T N) ctor arg raw st k r st' l k' ds,
+    fold_enhanced_t N O C clk ctor arg raw st k = (Ret r, st', l, (k', ds)) ->
+    k' = (k + 2 * length (e_attempts r))%nat /\ ds = durs_from N clk k (length (e_attempts r)).
+Proof. exact fold_enhanced_t_timing_proof. Qed.
+Print Assumptions c11_clock_readings.
+
+(* the healing loop and whole histories in which EVERY call runs under its own arbitrary clock *)
+Theorem c11_heal_clock_irrelevant :
+  forall (N : num) (O : oracles) (C : config) (clk : nat -> T N) ctor gen max_retries decay st,
+    fst (heal_t N O C clk ctor gen max_retries decay st) = heal N O C ctor gen max_retries decay st.
+Proof. exact heal_t_untimed. Qed.
+Print Assumptions c11_heal_clock_irrelevant.
+
+Theorem c11_history_clock_irrelevant :
+  forall (N : num) (B : base) ctor (tops : list (hop * (nat -> T N))) s,
+    map fst (run_hist_t N B ctor s tops) = run_hist N B ctor s (map fst tops).
+Proof. exact run_hist_t_untimed. Qed.
+Print Assumptions c11_history_clock_irrelevant.
